@@ -395,7 +395,7 @@ func c06Batches(seed uint64, thorough bool) []c06Batch {
 	}
 
 	// (3) random structure, five retries, no waiting, two peers
-	for k := 0; k < 4*scale; k++ {
+	for k := 0; k < 2+2*scale; k++ {
 		b := c06Batch{name: "random", algo: "epidemic", peers: 1 + k%2, gaps: make([]time.Duration, 5), lastOk: true}
 		for i := 0; i < 20; i++ {
 			s := c06Base(r, nid())
@@ -462,7 +462,7 @@ func c06Batches(seed uint64, thorough bool) []c06Batch {
 		}
 		for rep := 0; rep < 2; rep++ {
 			b := c06Batch{name: fmt.Sprintf("time%d", k), algo: "epidemic", peers: 1 + rep, gaps: gaps, lastOk: true}
-			for i := 0; i < 20*scale; i++ {
+			for i := 0; i < 10+10*scale; i++ {
 				s := c06Base(r, nid())
 				c06RandomBlocks(r, &s)
 				s.note = "time"
